@@ -100,6 +100,14 @@ class C04(Prop):
                 xp = tpl % (kf, v, f)
                 tag = "pred"
                 pred = {"form": form, "k": kf, "f": f, "v": v, "ppath": ["r"]}
+            if root == "dict" and rng.random() < 0.04:
+                # a list nested directly in a list, and a path that goes up again below it: g[i][j]/id/../v resolves
+                grid = [[{"id": rng.choice(["1", "x", 2]), "v": rng.choice([5, "B", None])} for _ in range(rng.randint(1, 2))]
+                        for _ in range(rng.randint(1, 3))]
+                t = {"g": grid, "a": t}
+                gi = rng.randrange(len(grid)); gj = rng.randrange(len(grid[gi]))
+                sp = rng.choice(["g[%d][%d]", "g[%d]/[%d]", "/g/[%d][%d]"]) % (gi, gj)
+                xp, tag, pred = sp + rng.choice(["/id/../v", "/id/../id", "/v/.."]), "resolves", None
             if rng.random() < 0.1:
                 xp = "?" + xp
             if rng.random() < 0.01:
